@@ -189,6 +189,15 @@ def execute(mat, ctx):
         r.reverse_complement()
         ctx.count("rc_after_edit")
         del r.features[-1]
+        # ... and edited without changing any count (identifiers, a feature moved in place, a qualifier, the order of the
+        # table), then asked again: a reverse complement remembered from the first asking would be refuted by the monitor
+        from . import C13
+        r.reverse_complement()              # (asked once more first, so that the two askings around the edit see the same counts)
+        h = n + len(r.features) + len(run["prior"])
+        for j, what in enumerate((["rename", "move-feature"], ["qualifier", "swap-features"], ["describe", "move-feature"], ["annotation", "rename"])[h % 4]):
+            C13._edit(r, what, h * 7 + j, ctx)
+        r.reverse_complement()
+        ctx.count("rc_after_count_preserving_edit")
         k = run["k"]
         ctx.count("law_commute")
         _equiv(ctx, (r >> k).reverse_complement(), r.reverse_complement() << k, "commute",
